@@ -2918,7 +2918,8 @@ impl<'a, R: FileManager> FrontendCtx<'a, R> {
         match prop {
             TsTypeElement::TsPropertySignature(prop) => {
                 let key = match &*prop.key {
-                    Expr::Ident(ident) => ident.sym.to_string(),
+                    // `[k]: T` names the property after the VALUE of k, not after the identifier
+                    Expr::Ident(ident) if !prop.computed => ident.sym.to_string(),
                     Expr::Lit(Lit::Str(st)) => st.value.to_string_lossy().to_string(),
                     _ => {
                         return self.error(&anchor, DiagnosticInfoMessage::PropKeyShouldBeIdent);
